@@ -3,6 +3,7 @@ CONSTANTS
   PageSeq <- MCPageSeq
   CliPaths <- MCCli
   KaPaths <- MCKaPaths
+  ZoqFiles <- MCZoq
   MaxSess = 3
   MaxProc = 2
 INVARIANT TypeOK
